@@ -2,5 +2,5 @@
 EXTENDS P2P
 View == core
 \* the liveness configuration has no tick budgets: hide the counters
-LiveView == <<pc, cc, c2p, p2c, fromP, fromC, env, bud.f>>
+LiveView == core
 ====
